@@ -158,7 +158,7 @@ def text_env(reg, c, mod, universe):
     def seq_eq_from(a, b, k):
         return tuple(a)[k:] == tuple(b)[k:] and (len(a) == len(b) or (k >= len(a) and k >= len(b) and len(a) == len(b)))
     env.update(forall=forall, exists=exists, implies=lambda a, b: (not a) or b, unit=lambda x: (x,), EMPTY=(),
-               old=lambda x: x, rev=lambda s_: tuple(reversed(tuple(s_))), rangeset=lambda *a: set(range(*a)), setadd=lambda s_, x: set(s_ or ()) | {x}, emptyset=lambda *a: set(), re_match=lambda p, s_, m='match': getattr(p, m)(s_) is not None, re_group=lambda p, k, s_, m='match': (getattr(p, m)(s_).group(k) or '') if getattr(p, m)(s_) else '', re_group_none=lambda p, k, s_, m='match': getattr(p, m)(s_) is None or getattr(p, m)(s_).group(k) is None, ite=lambda c_, a, b: a if c_ else b, seq_eq_from=seq_eq_from)
+               old=lambda x: x, rev=lambda s_: tuple(reversed(tuple(s_))), rangeset=lambda *a: set(range(*a)), setadd=lambda s_, x: set(s_ or ()) | {x}, emptyset=lambda *a: set(), shlex_quote=__import__('shlex').quote, re_match=lambda p, s_, m='match': getattr(p, m)(s_) is not None, re_group=lambda p, k, s_, m='match': (getattr(p, m)(s_).group(k) or '') if getattr(p, m)(s_) else '', re_group_none=lambda p, k, s_, m='match': getattr(p, m)(s_) is None or getattr(p, m)(s_).group(k) is None, ite=lambda c_, a, b: a if c_ else b, seq_eq_from=seq_eq_from)
     return env
 
 
